@@ -18,6 +18,7 @@ import (
 )
 
 type engine struct {
+	goReach map[*ssa.Function]bool // globals.go: functions that can run off the driver's goroutine
 	w       *world
 	ma      *modAnalysis
 	verif   string // /verif
@@ -490,6 +491,7 @@ func (e *engine) check(prop string) *checkResult {
 	if e.w.db.Discipline[prop] {
 		res.obls = append(res.obls, e.atomicObls(prop)...)
 		res.obls = append(res.obls, e.movedObls(prop)...)
+		res.obls = append(res.obls, e.sharedObls(prop)...)
 	}
 	// lemmas
 	for _, lm := range e.w.db.Lemmas {
